@@ -24,6 +24,7 @@ RULE = ('case = one entry of one of the 12 entry classes (or a posting inside a 
         'sibling\'s when they differ) and otherwise parent indent + indent_by (postings) / indent_by (entries); a created comment takes its '
         'owner\'s indent; a raw inserted item keeps its indent verbatim; every pre-existing Indent token and comment indent is unchanged. '
         'Non-trivial = a new line was created; distinct = hash(text, path, route, indent_by).')
+RULE += (" Also (rounds 8-12): every class that takes indent_by, both constructors, explicit indent_by; insertions into deep copies; the posting's indent node replaced (raw_indent); entries with an empty indent_by.")
 ASSUMPTIONS = ['with non-uniform siblings any sibling\'s indent is accepted (docs say "last", the code uses the first)']
 
 HEADS = {
